@@ -144,8 +144,9 @@ class Inj:
     """wraps user callbacks: counts invocations per callback name, raises a
     fresh Boom at the k-th invocation of the target"""
 
-    def __init__(self, world, target, k):
+    def __init__(self, world, target, k, exc=None):
         self.world, self.target, self.k = world, target, k
+        self.exc = exc            # None: Boom; else the name of an entry of c09_palette.PALETTE
         self.counts = {}
         self.failure = None
 
@@ -153,7 +154,11 @@ class Inj:
         n = self.counts[name] = self.counts.get(name, 0) + 1
         self.world.rec("call", name, n)
         if name == self.target and self.k is not None and n == self.k:
-            exc = Boom(f"{name}#{n}")
+            if self.exc is None:
+                exc = Boom(f"{name}#{n}")
+            else:
+                import c09_palette
+                exc = c09_palette.make_exc(self.exc, f"{name}#{n}")
             seq = self.world.rec("raise", name, exc)
             self.failure = dict(seq=seq, step=self.world.step, exc=exc, cb=name, n=n)
             raise exc
@@ -521,7 +526,7 @@ def run_case(case):
     A step naming a source that does not exist (yet) or has no live observer is a no-op."""
     lib.import_repo()
     W = World()
-    inj = Inj(W, case.get("callback"), case.get("k"))
+    inj = Inj(W, case.get("callback"), case.get("k"), case.get("exc"))
     p = case.get("params") or {}
     spec = CATALOGUE[case["operator"]]
     sched = make_sched(W) if p.get("sched") else None
